@@ -232,11 +232,15 @@ func (c *PullClient) requestSDP() (err error) {
 		switch media.Type {
 		case "video":
 			c.vControl = media.Attributes.Get("control")
-			c.vCodec = media.Format[0].Name
+			if len(media.Format) > 0 { // 非 RTP 的媒体描述(如 `m=video 0 udp x`)没有格式列表
+				c.vCodec = media.Format[0].Name
+			}
 
 		case "audio":
 			c.aControl = media.Attributes.Get("control")
-			c.aCodec = media.Format[0].Name
+			if len(media.Format) > 0 { // 非 RTP 的媒体描述(如 `m=video 0 udp x`)没有格式列表
+				c.aCodec = media.Format[0].Name
+			}
 		}
 	}
 	return err
